@@ -93,6 +93,15 @@ CONFIGS = [("plain", []), ("split", ["--split"]), ("keep", ["--keep"]), ("nocase
            ("all", ["--split", "--keep", "--no-change-case"])]
 
 EXTRA = {
+    "setconst": """const set<string> TAGS = ["a", "b"]
+const set<i32> SI = [1, 2]
+const set<double> SD = [1.5]
+const set<string> EMPTY = []
+const set<list<i32>> SL = [[1, 2], [3]]
+const list<set<i32>> LS = [[1, 2], [3]]
+const map<string, set<i32>> MS = {"k": [1, 2]}
+struct S { 1: i32 x, 2: set<string> t = ["a"], 3: set<i32> u = [] }
+""",
     "mutual": """struct A { 1: optional B b, 2: list<A> as, 3: map<string, B> bs }
 struct B { 1: optional A a, 2: optional B again, 3: set<i32> s }
 union U { 1: A a, 2: U u, 3: list<U> us }
